@@ -628,6 +628,7 @@ def apply_unified(patch_text: str, read=_read) -> Optional[Dict[str, str]]:
 # stored refactorings on which one check answers "cannot decide": not run as twins of that property
 UNDECIDED_REFACTORINGS = {
     ("C07", "benign3-C16-patch2"): "CPRegressor.fit fills its factor list from a local generator function: the number of factors is no longer a count the unit evaluator can name (UPDATE-DEGREE: cannot decide)",
+    ("C08", "benign8-C08-patch1"): "partial_tucker completes the core from the last partial projection: CORE-IN-SYNC asks for the multi_mode_dot(tensor, factors, transpose=True) form (cannot decide); DESIGN §31",
 }
 
 
